@@ -47,6 +47,7 @@ def _has_sym_text(e):
 
 class PlainCtx:
     mode = "plain"
+    np = np
 
     def arr(self, values, dtype):
         return np.array(list(values), dtype=dtype) if not isinstance(values, np.ndarray) else values.astype(dtype)
@@ -78,6 +79,11 @@ class PlainCtx:
 
 class SymCtx(PlainCtx):
     mode = "sym"
+
+    @property
+    def np(self):
+        from symnp import symnp
+        return symnp
 
     def arr(self, values, dtype):
         from symnp import SymArray
